@@ -107,7 +107,16 @@ def check(rep, tier, seed):
         for i, r in enumerate(e3.explore(c2[0])):
             ar = [e for e in r.events if e.kind == "call" and e.callee.endswith("archive_file")]
             md = [e for e in r.events if e.kind == "call" and re.search(r"Metadata::len$", e.callee)]
-            if r.status == "return" and isinstance(r.ret, Agg) and r.ret.variant == "Ok" and md:
+            if r.status == "return" and isinstance(r.ret, Agg) and r.ret.variant == "Ok":
+                # the size that decides is the size of the current log file ON DISK (a restart finds the file left by the earlier run)
+                mt = [e for e in r.events if e.kind == "call" and re.search(r"(Path|PathBuf|File)::metadata$|fs::metadata$", e.callee)]
+                cf = [e for e in r.events if e.kind == "call" and e.callee.endswith("get_current_file_full_path")]
+                src_ok = bool(md) and bool(mt) and is_part_of(origin(md[0].rargs[0]), mt[0].ret) and \
+                    (any(derives(mt[0].rargs[0], c.ret, r.events) for c in cf) or any(e.kind == "call" and e.callee.endswith("File::metadata") for e in mt))
+                rep.add(Query("roll_if_needed path %d: the size compared with the limit is the metadata length of the current log file" % i, "holds" if src_ok else "violated",
+                              "Metadata::len events %d, metadata() events %d" % (len(md), len(mt)), 0, "mirsym", key="C19.rolling-log.size-source", reproduced=None))
+                if not md:
+                    continue
                 size = md[0].ret.scalar("u64")
                 mx = origin(r.args[0]).child("*").child(("f", sctx.field("RollingLogger", "max_log_file_size")), "u64").scalar("u64")
                 bad = add_query(rep, "roll_if_needed path %d: the file is archived exactly when its size has reached the limit (so it exceeds the limit by at most one write)" % i,
@@ -118,9 +127,12 @@ def check(rep, tier, seed):
     # 3. event directory cap: event_logger::start
     c3 = [p for p in sctx.idx.files if re.search(r"event_logger::start::\{closure#0\}$", p)]
     if len(c3) == 1:
-        e4 = sctx.engine(loop_bound=1, max_paths=20000)
+        # one flush of the loop from an arbitrary state: from the directory listing to the next sleep; inner loops twice
+        # (a second file written after the same listing must be counted against the cap as well)
+        e4 = sctx.engine(loop_bound=2, max_paths=40000)
+        gfb = e4.find_blocks(c3[0], r"get_files$")
         n = 0
-        for i, r in enumerate(e4.explore(c3[0])):
+        for i, r in enumerate(e4.explore(c3[0], start_bb=gfb[0], stop_calls=r"tokio::time::sleep$|(^|::)sleep$|is_closed$") if len(gfb) == 1 else e4.explore(c3[0])):
             gf = [e for e in r.events if e.kind == "call" and e.callee.endswith("get_files")]
             ln = [e for e in r.events if e.kind == "len" and e.callee.endswith("Vec::len")]
             wr = [e for e in r.events if e.kind == "call" and re.search(r"(json_write_to_file|File::create|fs::write)$", e.callee)]
@@ -139,7 +151,9 @@ def check(rep, tier, seed):
                 ok = False
                 if l2:
                     capv = _cap_from_pc(r, l2[-1].ret.e)
-                    ok = capv is not None and implied(r, z3.ULT(l2[-1].ret.e, capv))
+                    # files written since that listing count too: listing + earlier writes < cap
+                    k = len([x for x in wr if r.events.index(g) < r.events.index(x) < wi])
+                    ok = capv is not None and implied(r, z3.And(z3.ULT(l2[-1].ret.e, capv), z3.ULT(l2[-1].ret.e + z3.BitVecVal(k, l2[-1].ret.e.size()), capv)))
                 rep.add(Query("event logger path %d: an event file is written only when the directory listing just taken holds fewer files than the cap" % i, "holds" if ok else "violated", "", 0, "mirsym+z3",
                               key="C19.event-cap", reproduced=None))
         rep.add(Query("witness: event logger writing paths", "witness-hit" if n else "witness-missed", "%d" % n, 0, "mirsym"))
